@@ -1189,16 +1189,31 @@ func (in *Inst) applyCommit(op Op) *Viol {
 		// v1 issues the recheck requests from goroutines; wait until all of them have reached the connection
 		n := in.Pool.Size()
 		tm := time.NewTimer(waitLimit)
+		first := time.NewTimer(10 * time.Second) // not one request within 10 s: no recheck round was started (judged below)
+	WAIT:
 		for k := 0; k < n; k++ {
 			select {
 			case <-in.Conn.Arrived:
+				if k == 0 {
+					first.Stop()
+					first = time.NewTimer(waitLimit)
+				}
+			case <-first.C:
+				if k == 0 {
+					break WAIT
+				}
+				in.inconclusive("recheck requests did not reach the connection")
+				tm.Stop()
+				return nil
 			case <-tm.C:
 				in.inconclusive("recheck requests did not reach the connection")
 				tm.Stop()
+				first.Stop()
 				return nil
 			}
 		}
 		tm.Stop()
+		first.Stop()
 		w := in.Walk()
 		in.Conn.SortRechecks(func(tx int) int {
 			for i, x := range w {
